@@ -132,7 +132,7 @@ Step ==
                                         \* elements of a channel handed over by an AddInput that returned must be delivered as well
                                         \cup (IF ~stop /\ ~Cfg.fault /\ (\E c \in live \cap added : rc[c] # wr[c] \/ gap[c]) THEN {"C17"} ELSE {})
                         /\ Keep
-       [] e.e \in {"StopHang", "CancelHang"} -> viol' = viol \cup {"C16"} /\ Keep
+       [] e.e \in {"StopHang", "CancelHang", "StopRetEarly"} -> viol' = viol \cup {"C16"} /\ Keep
        [] e.e = "GraceHang" -> viol' = viol \cup Also17({"C07"}) /\ Keep
        [] e.e = "OutGrew" -> viol' = viol \cup {"C16"} /\ Keep
        [] e.e = "HandleAfterStop" -> viol' = viol \cup {"C16"} /\ Keep
